@@ -18,7 +18,7 @@ var modelNames = map[string]bool{
 	"(time.Time).IsZero": false,
 	"(time.Time).Add":    true, "(time.Time).Sub": true,
 	"(time.Duration).Seconds": true,
-	"time.Now": true, "time.Until": true, "time.Since": true,
+	"time.Now": true, "time.Until": true, "time.Since": true, "(time.Time).UnixNano": true,
 	"math/rand/v2.Float64": true, "math/rand/v2.IntN": true, "math/rand.Float64": true, "math/rand.Intn": true,
 	"cmp.Compare":             true,
 	"sync.NewCond":            true,
@@ -145,6 +145,13 @@ func (E *Engine) model(fr *Frame, st *State, name string, fn *ssa.Function, args
 		}
 		r := tb.Fresh("rand", SInt)
 		E.addFact(st, tb.And(tb.Cmp(">=", r, tb.Int(0)), tb.Cmp("<", r, t(0))))
+		return r, true
+	case "(time.Time).UnixNano":
+		// the instant in nanoseconds, assumed representable (years 1678..2262)
+		r := E.timeKey(t(0))
+		if !r.bound {
+			tb.AddTermAxiom(fmt.Sprintf("unixnano#%d", r.id), tb.And(tb.Cmp(">=", r, tb.Int(-9223372036854775808)), tb.Cmp("<=", r, tb.Int(9223372036854775807))), r)
+		}
 		return r, true
 	case "(time.Duration).Seconds":
 		// exact in the reals (float64 rounding of very long durations is ignored)
